@@ -9,6 +9,8 @@ can reach it.  Rules (all decided on the MIR of the current tree):
                       on a key whose backing statics are all #[thread_local]
   C16.publish         the *const CErr handed to the caller derives from that same thread-local RefCell
   C16.reader          error_description touches nothing but its argument
+  C16.most-recent     the body that stores the description cannot reach its return without storing (what is retrieved is the most
+                      recent failure of the thread)
   C16.only-on-failure throw_err is only ever called with the payload of an `Err`, and no body that stores to the slot is reachable
                       from the C table once throw_err is cut out of the call graph (the slot changes only on failure)
 """
@@ -265,5 +267,20 @@ def run(ctx):
                               '(%s): it does not stay intact until that thread\'s next failure' % ' -> '.join(x.split('::')[-1] if not x.endswith('}') else x.split('::', 1)[-1] for x in facts.path_to(parent2, w)[-4:]),
                               site=at, path=facts.path_to(parent2, w), config=cfg)
         ctx.floor('C16.only-on-failure', 10, 'throw_err call sites')
+        # --- most recent failure: a slot-writing body never returns without having stored --------------
+        for w, at in sorted(slot_writers.items()):
+            f = facts.fns[w]
+            sb = set()
+            for i, b in F.blocks(f):
+                for s in b['stmts']:
+                    if s['k'] == 'assign' and ((CERR, FIELD) in F.fields_of(s['place'])) and F.last_field(s['place']) == (CERR, FIELD):
+                        sb.add(i)
+            reach = F.reachable_blocks(f, 0, avoid=sb)
+            skipping = [i for i in reach if f['blocks'][i]['term']['k'] == 'return']
+            ctx.instance('C16.most-recent', '%s: every path to its return stores the description of the failure being reported' % w, ok=not skipping, site=at)
+            if skipping:
+                ctx.violation('C16.most-recent', w, 'store-can-be-skipped', 'a path through %s returns without storing the new description: the pointer handed out then designates the text of an earlier '
+                              'failure of this thread, not the most recent one' % w, site=at, config=cfg)
+        ctx.floor('C16.most-recent', 1, 'slot-writing bodies')
     ctx.trust('Rust thread_local!/#[thread_local] semantics: a slot is reachable only from its own thread')
     ctx.assume('C hooks do not pass a CErr pointer obtained on one thread to another thread')
